@@ -35,13 +35,17 @@ def text(t: List[str]) -> str:
 
 
 class Codec:
-    def __init__(self, scn: Dict[str, Any], unit: float, falsy: bool, with_error: bool):
+    def __init__(self, scn: Dict[str, Any], unit: float, falsy: bool, with_error: bool, term: bool = False):
         self.s = text(scn["s"])
         self.par = scn["par"]
         self.unit = unit
         self.err = MarbleErr("boom") if with_error else None
         keys = sorted(text(k) for k in self.par["lk"])
-        if falsy:
+        if term:
+            # looked-up values that ARE the strings "|" / "#" (they stay values); the terminal characters as keys map to
+            # objects that must never show up (terminals are not looked up)
+            self.lookup = {k: (LK(k) if k in ("|", "#") else "|#"[i % 2]) for i, k in enumerate(keys)}
+        elif falsy:
             self.lookup = {k: FALSY_LK[i % len(FALSY_LK)] for i, k in enumerate(keys)}
         else:
             self.lookup = {k: LK(k) for k in keys}
@@ -102,13 +106,14 @@ def _rec(api: str, scn, exp, cod: Codec, why: str, got: Any, **extra) -> Dict[st
 
 
 def judge(scn: Dict[str, Any], exp: Dict[str, Any], *, unit: float = 1.0, as_timedelta: bool = False, falsy: bool = False,
-          with_error: bool = True, hist: bool = False, apis=("parse", "cold", "hot", "ctx")) -> List[Dict[str, Any]]:
+          with_error: bool = True, hist: bool = False, term: bool = False,
+          apis=("parse", "cold", "hot", "ctx")) -> List[Dict[str, Any]]:
     """Failure records (empty list = every API call agreed with the model)."""
     import reactivex
     from reactivex.observable.marbles import parse
     from reactivex.testing import TestScheduler
     from reactivex.testing.marbles import marbles_testing
-    cod = Codec(scn, unit, falsy, with_error)
+    cod = Codec(scn, unit, falsy, with_error, term)
     par = scn["par"]
     s = cod.s
     ts_f = par["ts"] * unit
@@ -116,7 +121,7 @@ def judge(scn: Dict[str, Any], exp: Dict[str, Any], *, unit: float = 1.0, as_tim
     ts_arg = timedelta(seconds=ts_f) if as_timedelta else ts_f
     sh_arg = timedelta(seconds=sh_f) if as_timedelta else sh_f
     fails: List[Dict[str, Any]] = []
-    extra = {"as_timedelta": as_timedelta, "hist": hist}
+    extra = {"as_timedelta": as_timedelta, "hist": hist, "term": term}
     # the scheduler the observables run on: TestScheduler (float clock) or HistoricalScheduler (datetime clock)
     if hist:
         from reactivex.scheduler import HistoricalScheduler
